@@ -206,3 +206,32 @@ def canon(func, node, depth: int = 3) -> str:
             return n
     t = Sort().visit(Inline(depth).visit(copy.deepcopy(node)))
     return norm(ast.fix_missing_locations(t))
+
+
+def expand_locals(node, fn, depth: int = 3, keep=()):
+    """a copy of node where every local of fn that is assigned exactly once (plain `name = value`) is replaced by that value, so that
+    `x = d.get(k); len(x) == 1` reads `len(d.get(k)) == 1`: rules that compare the text of a condition see through an extracted local"""
+    import copy
+    stores = {}
+    for a in ast.walk(fn):
+        if isinstance(a, ast.Name) and isinstance(a.ctx, (ast.Store, ast.Del)):
+            stores[a.id] = stores.get(a.id, 0) + 1
+    defs = {}
+    for a in ast.walk(fn):
+        if isinstance(a, ast.Assign) and len(a.targets) == 1 and isinstance(a.targets[0], ast.Name) and stores.get(a.targets[0].id) == 1:
+            defs[a.targets[0].id] = a.value
+        elif isinstance(a, ast.AnnAssign) and isinstance(a.target, ast.Name) and a.value is not None and stores.get(a.target.id) == 1:
+            defs[a.target.id] = a.value
+
+    class _E(ast.NodeTransformer):
+        def visit_Name(self, n):
+            if isinstance(n.ctx, ast.Load) and n.id in defs and n.id not in keep:
+                return ast.copy_location(copy.deepcopy(defs[n.id]), n)
+            return n
+    out = copy.deepcopy(node)
+    for _ in range(depth):
+        before = ast.dump(out)
+        out = _E().visit(out)
+        if ast.dump(out) == before:
+            break
+    return out
